@@ -48,6 +48,8 @@ def run_demo(wt, demo_dir):
     tests = sorted(glob.glob(os.path.join(demo_dir, "test_*.py")))
     progs = sorted(p for p in glob.glob(os.path.join(demo_dir, "*.py"))
                    if not os.path.basename(p).startswith("test_") and os.path.basename(p).startswith(("demo", "run_", "repro")))
+    if tests:
+        progs = []  # other .py files next to pytest demonstrations are their helpers
     results = []
     for t in tests:
         rc, out = sh([PY, "-m", "pytest", "-q", "-p", "no:cacheprovider", "-x", t], cwd=wt, timeout=1200)
